@@ -110,3 +110,197 @@ func returnPathsSource(r *rand.Rand, elseIfs int, drop map[int]bool, retType str
 	}
 	return b.String(), len(drop) == 0
 }
+
+// operandOrderProgram: operands that are plain global variables next to calls that assign those
+// globals: the value of the left operand is the one read before the call ran.
+func operandOrderProgram(r *rand.Rand) *gen.Program {
+	n, s, b := vr("gn", tNum), vr("gs", tStr), vr("gb", tBool)
+	bin := func(op string, l, rr gen.Expr, t *gen.Type) gen.Expr { return gen.Binary{Op: op, L: l, R: rr, T: t} }
+	ss := []gen.Stmt{
+		gen.FuncDef{Name: "next", Ret: tNum, Body: []gen.Stmt{gen.Assign{Target: n, Val: bin("+", n, nl(1), tNum)}, gen.Return{Val: n}}},
+		gen.FuncDef{Name: "grow", Ret: tStr, Body: []gen.Stmt{gen.Assign{Target: s, Val: bin("+", s, sl("x"), tStr)}, gen.Return{Val: s}}},
+		gen.FuncDef{Name: "flip", Ret: tBool, Body: []gen.Stmt{gen.Assign{Target: b, Val: gen.Unary{Op: "!", X: b}}, gen.Return{Val: b}}},
+		gen.FuncDef{Name: "bump", Ret: tNum, Params: []gen.Param{{Name: "by", T: tNum}}, Body: []gen.Stmt{gen.Assign{Target: n, Val: bin("+", n, vr("by", tNum), tNum)}, gen.Return{Val: vr("by", tNum)}}},
+		gen.Decl{Name: "gn", T: tNum, Init: nl(float64(1 + r.Intn(3)))},
+		gen.Decl{Name: "gs", T: tStr, Init: sl([]string{"a", "m", "é"}[r.Intn(3)])},
+		gen.Decl{Name: "gb", T: tBool, Init: gen.BoolLit{V: r.Intn(2) == 0}},
+	}
+	next, grow, flip := call("next", tNum), call("grow", tStr), call("flip", tBool)
+	exprs := []gen.Expr{
+		bin("+", n, next, tNum), bin("+", next, n, tNum), bin("-", n, next, tNum), bin("*", n, bin("+", next, n, tNum), tNum),
+		bin("+", bin("*", n, nl(10), tNum), next, tNum), bin("<", n, next, tBool), bin("==", n, next, tBool), bin("%", next, n, tNum),
+		bin("+", s, grow, tStr), bin("+", grow, s, tStr), bin("<", s, grow, tBool), bin("==", s, grow, tBool), bin("!=", grow, s, tBool),
+		bin("==", b, flip, tBool), bin("!=", flip, b, tBool), bin("and", b, flip, tBool), bin("or", b, flip, tBool), bin("or", flip, b, tBool),
+		arrLit(tArrN, n, next, n), gen.MapLit{T: tMapN, Keys: []string{"a", "b", "c"}, Vals: []gen.Expr{n, next, n}},
+		bin("+", n, call("bump", tNum, n), tNum), bin("+", call("bump", tNum, bin("+", n, nl(1), tNum)), n, tNum),
+		gen.Index{X: arrLit(tArrN, n, next, n), I: bin("-", next, n, tNum), T: tNum},
+		bin("+", arrLit(tArrS, s), arrLit(tArrS, grow, s), tArrS),
+	}
+	r.Shuffle(len(exprs), func(i, j int) { exprs[i], exprs[j] = exprs[j], exprs[i] })
+	for k, e := range exprs[:8+r.Intn(len(exprs)-8)] {
+		switch r.Intn(3) {
+		case 0:
+			ss = append(ss, printCall(sl(fmt.Sprintf("e%d", k)), e, n, s, b))
+		case 1:
+			name := fmt.Sprintf("oo%d", k)
+			ss = append(ss, gen.Decl{Name: name, T: e.Ty(), Init: e}, printCall(vr(name, e.Ty()), n, s, b))
+		case 2: // as arguments: earlier arguments keep the value they had
+			ss = append(ss, printCall(n, s, b, e, n, s, b))
+		}
+	}
+	return &gen.Program{Stmts: ss}
+}
+
+// shadowProgram: every kind of block declares a variable that shadows an outer variable of a
+// DIFFERENT type, uses it, and ends; afterwards the outer variable is used with its own type.
+// sel chooses which branch of the if chains is taken.
+func shadowProgram(r *rand.Rand) *gen.Program {
+	v, w := vr("v", tNum), vr("w", tStr)
+	bin := func(op string, l, rr gen.Expr, t *gen.Type) gen.Expr { return gen.Binary{Op: op, L: l, R: rr, T: t} }
+	after := func(tag string) gen.Stmt {
+		return printCall(sl(tag), bin("+", v, nl(1), tNum), bin("+", w, sl("."), tStr), vr("sel", tNum))
+	}
+	// an inner declaration of name with a type different from the outer one, and a use of it
+	inner := func(name string, k int) []gen.Stmt {
+		switch k % 4 {
+		case 0:
+			return []gen.Stmt{gen.Decl{Name: name, T: tArrN, Init: arrLit(tArrN, nl(7), nl(8))}, printCall(sl("inner"), vr(name, tArrN), call("len", tNum, toAny(vr(name, tArrN))))}
+		case 1:
+			return []gen.Stmt{gen.Decl{Name: name, T: tBool, Init: gen.BoolLit{V: true}}, printCall(sl("inner"), gen.Unary{Op: "!", X: vr(name, tBool)})}
+		case 2:
+			return []gen.Stmt{gen.Decl{Name: name, T: tMapN, Init: gen.MapLit{T: tMapN, Keys: []string{"k"}, Vals: []gen.Expr{nl(5)}}}, printCall(sl("inner"), gen.Dot{X: vr(name, tMapN), Key: "k", T: tNum})}
+		default:
+			return []gen.Stmt{gen.Decl{Name: name, T: tAny, Typed: true}, gen.Assign{Target: vr(name, tAny), Val: toAny(sl("any"))}, printCall(sl("inner"), vr(name, tAny))}
+		}
+	}
+	cond := func(k int) gen.Expr { return bin("==", vr("sel", tNum), nl(float64(k)), tBool) }
+	ss := []gen.Stmt{
+		gen.FuncDef{Name: "shadowfn", Ret: tNum, Params: []gen.Param{{Name: "p", T: tNum}}, Body: append(append([]gen.Stmt{}, inner("v", r.Intn(4))...),
+			gen.If{Conds: []gen.Expr{bin(">", vr("p", tNum), nl(0), tBool)}, Blocks: [][]gen.Stmt{append(inner("w", r.Intn(4)), gen.Return{Val: bin("+", vr("p", tNum), nl(1), tNum)})}, Else: append(inner("w", r.Intn(4)), gen.Return{Val: nl(0)})})},
+		gen.Decl{Name: "v", T: tNum, Init: nl(float64(1 + r.Intn(5)))},
+		gen.Decl{Name: "w", T: tStr, Init: sl("outer")},
+		gen.Decl{Name: "sel", T: tNum, Init: nl(0)},
+	}
+	nsel := 4
+	body := []gen.Stmt{
+		// if / else if / else if / else: one branch taken per round
+		gen.If{Conds: []gen.Expr{cond(0), cond(1), cond(2)}, Blocks: [][]gen.Stmt{inner("v", r.Intn(4)), inner("w", r.Intn(4)), inner("v", r.Intn(4))}, Else: inner("v", r.Intn(4))},
+		after("after-if"),
+		// if / else without else-if
+		gen.If{Conds: []gen.Expr{bin("<", vr("sel", tNum), nl(2), tBool)}, Blocks: [][]gen.Stmt{inner("w", r.Intn(4))}, Else: append(inner("w", r.Intn(4)), inner("v", r.Intn(4))...)},
+		after("after-if-else"),
+		// nested: else inside else, loop inside else
+		gen.If{Conds: []gen.Expr{cond(9)}, Blocks: [][]gen.Stmt{{printCall(sl("never"))}}, Else: []gen.Stmt{
+			gen.If{Conds: []gen.Expr{cond(1)}, Blocks: [][]gen.Stmt{inner("v", r.Intn(4))}, Else: inner("w", r.Intn(4))},
+			after("inside-else"),
+			gen.For{Args: []gen.Expr{nl(2)}, Body: inner("v", r.Intn(4))},
+			after("inside-else-after-for"),
+		}},
+		after("after-nested"),
+		gen.For{Var: "fi", VarT: tNum, Args: []gen.Expr{nl(2)}, Body: append(inner("w", r.Intn(4)), printCall(vr("fi", tNum)))},
+		after("after-for"),
+		gen.For{Var: "el", VarT: tStr, Over: arrLit(tArrS, sl("x"), sl("y")), Body: append(inner("v", r.Intn(4)), gen.If{Conds: []gen.Expr{cond(3)}, Blocks: [][]gen.Stmt{{gen.Break{}}}})},
+		after("after-for-array"),
+		gen.Decl{Name: "wk", T: tNum, Init: nl(0)},
+		gen.While{Cond: bin("<", vr("wk", tNum), nl(2), tBool), Body: append(inner("v", r.Intn(4)), gen.Assign{Target: vr("wk", tNum), Val: bin("+", vr("wk", tNum), nl(1), tNum)},
+			gen.If{Conds: []gen.Expr{cond(2)}, Blocks: [][]gen.Stmt{append(inner("w", r.Intn(4)), gen.Break{})}})},
+		after("after-while"),
+		printCall(sl("fn"), call("shadowfn", tNum, bin("-", vr("sel", tNum), nl(1), tNum))),
+		after("after-fn"),
+	}
+	// the rounds are unrolled (a loop body would itself be a scope that hides the effect)
+	for k := 0; k < nsel; k++ {
+		ss = append(ss, gen.Assign{Target: vr("sel", tNum), Val: nl(float64(k))})
+		if k == 0 {
+			ss = append(ss, body...)
+		} else {
+			ss = append(ss, renameDecl(body, fmt.Sprintf("_%d", k))...)
+		}
+	}
+	return &gen.Program{Stmts: ss}
+}
+
+// renameDecl renames the top-level declaration "wk" of a statement list (a second copy of the list in
+// the same scope must not redeclare it).
+func renameDecl(body []gen.Stmt, suffix string) []gen.Stmt {
+	out := make([]gen.Stmt, 0, len(body))
+	for _, s := range body {
+		switch s := s.(type) {
+		case gen.Decl:
+			if s.Name == "wk" {
+				out = append(out, gen.Assign{Target: vr("wk", tNum), Val: nl(0)})
+				continue
+			}
+			out = append(out, s)
+		default:
+			out = append(out, s)
+		}
+	}
+	return out
+}
+
+// loopStateProgram: several activations of the same loop statement alive at once (recursion from
+// inside the loop body, return from inside a loop after a recursive call), and loops left by break
+// followed by uses of outer variables named like the loop variable and by new global declarations
+// that functions use.
+func loopStateProgram(r *rand.Rand) *gen.Program {
+	bin := func(op string, l, rr gen.Expr, t *gen.Type) gen.Expr { return gen.Binary{Op: op, L: l, R: rr, T: t} }
+	num := func(n string) gen.VarRef { return vr(n, tNum) }
+	d := float64(2 + r.Intn(2))
+	brk := float64(1 + r.Intn(3))
+	ss := []gen.Stmt{
+		gen.FuncDef{Name: "walk", Ret: gen.TNone, Params: []gen.Param{{Name: "depth", T: tNum}}, Body: []gen.Stmt{
+			gen.For{Var: "i", VarT: tNum, Args: []gen.Expr{num("depth")}, Body: []gen.Stmt{
+				printCall(sl("walk"), num("depth"), num("i")),
+				gen.CallStmt{C: call("walk", gen.TNone, bin("-", num("depth"), nl(1), tNum))},
+				printCall(sl("back"), num("depth"), num("i")),
+			}},
+		}},
+		gen.FuncDef{Name: "sum", Ret: tNum, Params: []gen.Param{{Name: "n", T: tNum}}, Body: []gen.Stmt{
+			gen.For{Var: "i", VarT: tNum, Args: []gen.Expr{num("n"), nl(0), nl(-1)}, Body: []gen.Stmt{
+				gen.If{Conds: []gen.Expr{bin("<=", num("i"), nl(2), tBool)}, Blocks: [][]gen.Stmt{{gen.Return{Val: bin("+", num("i"), call("sum", tNum, bin("-", num("n"), nl(1), tNum)), tNum)}}}},
+				printCall(sl("sum"), num("n"), num("i")),
+			}},
+			gen.Return{Val: nl(0)},
+		}},
+		gen.FuncDef{Name: "each", Ret: gen.TNone, Params: []gen.Param{{Name: "a", T: tArrN}}, Body: []gen.Stmt{
+			gen.For{Var: "x", VarT: tNum, Over: vr("a", tArrN), Body: []gen.Stmt{
+				printCall(sl("each"), num("x")),
+				gen.If{Conds: []gen.Expr{bin(">", call("len", tNum, toAny(vr("a", tArrN))), nl(1), tBool)}, Blocks: [][]gen.Stmt{{gen.CallStmt{C: call("each", gen.TNone, gen.Slice{X: vr("a", tArrN), Lo: nl(1)})}}}},
+				printCall(sl("each back"), num("x")),
+			}},
+		}},
+		gen.FuncDef{Name: "chars", Ret: gen.TNone, Params: []gen.Param{{Name: "s", T: tStr}}, Body: []gen.Stmt{
+			gen.For{Var: "ch", VarT: tStr, Over: vr("s", tStr), Body: []gen.Stmt{
+				printCall(sl("chars"), vr("ch", tStr)),
+				gen.If{Conds: []gen.Expr{bin(">", call("len", tNum, toAny(vr("s", tStr))), nl(1), tBool)}, Blocks: [][]gen.Stmt{{gen.CallStmt{C: call("chars", gen.TNone, gen.Slice{X: vr("s", tStr), Lo: nl(1)})}}}},
+			}},
+		}},
+		gen.CallStmt{C: call("walk", gen.TNone, nl(d))},
+		printCall(sl("sum"), call("sum", tNum, nl(d+2))),
+		gen.CallStmt{C: call("each", gen.TNone, arrLit(tArrN, nl(1), nl(2), nl(3)))},
+		gen.CallStmt{C: call("chars", gen.TNone, sl("aé🌍"))},
+		// loops left by break
+		gen.Decl{Name: "i", T: tNum, Init: nl(10)},
+		gen.Decl{Name: "k", T: tStr, Init: sl("outer k")},
+		gen.For{Var: "i", VarT: tNum, Args: []gen.Expr{nl(5)}, Body: []gen.Stmt{
+			gen.Decl{Name: "tmp", T: tNum, Init: bin("*", num("i"), nl(2), tNum)},
+			gen.If{Conds: []gen.Expr{bin("==", num("i"), nl(brk), tBool)}, Blocks: [][]gen.Stmt{{gen.Break{}}}},
+			printCall(sl("in loop"), num("i"), num("tmp")),
+		}},
+		printCall(sl("after break"), num("i"), vr("k", tStr)),
+		gen.Assign{Target: num("i"), Val: bin("+", num("i"), nl(1), tNum)},
+		gen.For{Var: "k", VarT: tStr, Over: sl("abc"), Body: []gen.Stmt{
+			gen.If{Conds: []gen.Expr{bin("==", vr("k", tStr), sl("b"), tBool)}, Blocks: [][]gen.Stmt{{gen.Break{}}}},
+		}},
+		printCall(sl("after 2nd break"), num("i"), vr("k", tStr)),
+		gen.For{Var: "k", VarT: tStr, Over: gen.MapLit{T: tMapN, Keys: []string{"p", "q"}, Vals: []gen.Expr{nl(1), nl(2)}}, Body: []gen.Stmt{gen.Break{}}},
+		gen.While{Cond: gen.BoolLit{V: true}, Body: []gen.Stmt{gen.Decl{Name: "i", T: tStr, Init: sl("while-local")}, printCall(vr("i", tStr)), gen.Break{}}},
+		gen.Decl{Name: "late", T: tStr, Init: sl("declared after loops left by break")},
+		gen.FuncDef{Name: "uselate", Ret: gen.TNone, Body: []gen.Stmt{printCall(vr("late", tStr), num("i"), vr("k", tStr))}},
+		gen.CallStmt{C: call("uselate", gen.TNone)},
+		gen.Assign{Target: vr("late", tStr), Val: bin("+", vr("late", tStr), sl("!"), tStr)},
+		gen.CallStmt{C: call("uselate", gen.TNone)},
+	}
+	return &gen.Program{Stmts: ss}
+}
